@@ -49,6 +49,29 @@ type ownAnalysis struct {
 	fns     map[*ssa.Function]bool
 	fresh   map[*ssa.Function]int // returns-fresh memo: 0 unknown 1 yes 2 no
 	trusted map[string]bool
+	// locations (captured variable / field of a shared object) that a goroutine writes, and every read of such
+	// locations by the goroutines
+	sharedWrites map[string]string
+	reads        []raceRead
+}
+
+type raceRead struct {
+	key, pos, fn string
+	guarded      bool
+}
+
+// locKey names the memory location behind an address for the read/write pairing: a captured variable by identity,
+// a field of a shared object by type and field name (conservative: all objects of the type alias).
+func locKey(addr ssa.Value) string {
+	switch x := addr.(type) {
+	case *ssa.FreeVar:
+		return "captured " + x.Name() + " of " + core.FnName(x.Parent())
+	case *ssa.FieldAddr:
+		if fr, ok := core.FieldOfAddr(x); ok {
+			return "field " + fr.Owner.Obj().Name() + "." + fr.Name
+		}
+	}
+	return ""
 }
 
 // returnsFresh: every non-nil result 0 of fn is an allocation made by fn or by a returns-fresh callee.
@@ -356,6 +379,12 @@ func (a *ownAnalysis) analyze(x *ownCtx, depth int) {
 		w := raceWrite{pos: a.c.Pos(in.Pos()), fn: core.FnName(fn), what: what, class: cl}
 		if cl == ownShared {
 			w.guarded = a.lockHeld(x, in)
+			if k := locKey(addr); k != "" {
+				if a.sharedWrites == nil {
+					a.sharedWrites = map[string]string{}
+				}
+				a.sharedWrites[k] = w.pos
+			}
 		}
 		a.writes = append(a.writes, w)
 	}
@@ -364,6 +393,12 @@ func (a *ownAnalysis) analyze(x *ownCtx, depth int) {
 	for _, b := range fn.Blocks {
 		for _, in := range b.Instrs {
 			switch t := in.(type) {
+			case *ssa.UnOp:
+				if t.Op == token.MUL {
+					if k := locKey(t.X); k != "" && a.classOf(x, t.X, 0) == ownShared {
+						a.reads = append(a.reads, raceRead{key: k, pos: a.c.Pos(t.Pos()), fn: core.FnName(fn), guarded: a.lockHeld(x, in)})
+					}
+				}
 			case *ssa.Store:
 				if al, isAlloc := t.Addr.(*ssa.Alloc); isAlloc {
 					_ = al
@@ -688,6 +723,62 @@ func c20Utilities(c *core.Ctx, r *core.Report) {
 					}
 				}
 			}
+			// what the method reports comes from its linearization point: on every path through a mutating primitive
+			// that has results, no result of the method derives from an earlier read of the same map (a caller that
+			// lost the race would be told what the read saw, not what the atomic operation decided)
+			for _, m := range muts {
+				mc, isCall := m.in.(*ssa.Call)
+				if !isCall || mc.Common().Signature().Results().Len() == 0 {
+					continue
+				}
+				via := core.ReachableFrom(mc.Block(), nil)
+				primOf := map[ssa.Instruction]string{}
+				for _, p := range ps {
+					primOf[p.in] = p.name
+				}
+				var from func(v ssa.Value, d int) []ssa.Instruction
+				from = func(v ssa.Value, d int) []ssa.Instruction {
+					if d > 8 || v == nil {
+						return nil
+					}
+					switch x := v.(type) {
+					case *ssa.Extract:
+						return from(x.Tuple, d+1)
+					case *ssa.TypeAssert:
+						return from(x.X, d+1)
+					case *ssa.ChangeType:
+						return from(x.X, d+1)
+					case *ssa.MakeInterface:
+						return from(x.X, d+1)
+					case *ssa.ChangeInterface:
+						return from(x.X, d+1)
+					case *ssa.Phi:
+						var out []ssa.Instruction
+						for i, e := range x.Edges {
+							pred := x.Block().Preds[i]
+							if via[pred] || pred == mc.Block() {
+								out = append(out, from(e, d+1)...)
+							}
+						}
+						return out
+					case *ssa.Call:
+						return []ssa.Instruction{x}
+					}
+					return nil
+				}
+				for _, ret := range core.Returns(fn) {
+					if !via[ret.Block()] && ret.Block() != mc.Block() {
+						continue
+					}
+					for i, res := range ret.Results {
+						for _, src := range from(res, 0) {
+							if name, isPrim := primOf[src]; isPrim && src != ssa.Instruction(mc) && syncMapReaders[name] && !core.BlockReaches(mc.Block(), src.Block()) {
+								bad = fmt.Sprintf("result #%d returned after %s derives from the earlier %s at %s, not from the atomic operation", i, m.name, name, c.Pos(src.Pos()))
+							}
+						}
+					}
+				}
+			}
 			r.Check(bad == "", "C20.R4", cons, c.FnPos(fn), fmt.Sprintf("at most one mutating sync.Map primitive of the matching kind on every path, never check-then-act (%d primitives) %s", len(ps), bad))
 		}
 	}
@@ -765,6 +856,17 @@ func c20(c *core.Ctx, r *core.Report) {
 				nbad++
 				r.Fail("C20.R2", cons+":write@"+w.fn+":"+w.what, w.pos, "a goroutine of this fan-out writes memory shared with its siblings without holding a lock ("+w.what+" in "+w.fn+")")
 			}
+		}
+		// a location the goroutines write (under the lock) is also read only under the lock
+		seenRead := map[string]bool{}
+		for _, rd := range a.reads {
+			wpos, written := a.sharedWrites[rd.key]
+			if !written || rd.guarded || seenRead[rd.key+rd.fn] {
+				continue
+			}
+			seenRead[rd.key+rd.fn] = true
+			nbad++
+			r.Fail("C20.R2", cons+":read@"+rd.fn+":"+rd.key, rd.pos, "a goroutine of this fan-out reads "+rd.key+" without holding the lock while its siblings write it (at "+wpos+")")
 		}
 		r.Extra["ownership:"+core.FnName(g.fn)] = map[string]any{"functions_analysed": len(a.fns), "writes_by_class": byClass}
 		r.Count("functions_reachable_from_goroutines", len(a.fns))
